@@ -317,6 +317,20 @@ func oracle(res *runResult, cs, maxMsg int) *verdict {
 			}
 		case "cacput", "cacget":
 			v = oracleACClient(st)
+		case "bigget", "bigfront", "stallget":
+			switch {
+			case st.reply == "ok":
+			case st.reply == "hang close recv" || st.reply == "hang close decoder":
+				// the decoder is closed before the pipe it reads from / Recv is called by Close
+				// concurrently with the goroutine feeding the decoder
+				v = &verdict{whatD11, st.reply}
+			case strings.HasPrefix(st.reply, "hang close"):
+				v = &verdict{whatBigClose, st.reply}
+			case st.reply == "hang read":
+				v = &verdict{whatBigFront, st.reply}
+			default:
+				v = &verdict{whatClient, st.reply}
+			}
 		case "bupd", "bread", "fmb":
 			v = oracleBatch(st, maxMsg)
 		case "cput", "cget", "cfm":
